@@ -271,7 +271,20 @@ mut("n-args-override-wins", ["C03"], "code_data/_blocks.py",
 mut("none-line-typeerror", ["C03"], "code_data/_line_mapping.py",
     "        if line_number is None:\n            line_number = last_line_number\n", "")
 mut("collision-assert-eq", ["C03"], "code_data/_blocks.py",
-    "            assert self._hash_fn(self._i_to_arg[i]) == self._hash_fn(arg)", "            assert self._i_to_arg[i] == arg or self._i_to_arg[i] != self._i_to_arg[i]")
+    "            if self._hash_fn(self._i_to_arg[i]) != self._hash_fn(arg):", "            if not (self._i_to_arg[i] == arg or self._i_to_arg[i] != self._i_to_arg[i]):")
+# reversal of fix cae8684: the validity checks as assert statements again (vanish in the python -O twin)
+mut("validity-checks-as-asserts", ["C11"], "code_data/_code_data.py",
+    "        if args:\n            raise AssertionError(\"if this isn't a function, it shouldn't have args\")",
+    "        assert not args, \"if this isn't a function, it shouldn't have args\"")
+# the case fix 04444f0 repaired: 256 or more cell variables together with a free variable (w4:cells-N-free-jumps)
+mut("freevar-shift-wraps-at-256-cells", ["C01"], "code_data/_blocks.py",
+    "                args[block_index, instruction_index] += len(cellvars)", "                args[block_index, instruction_index] += len(cellvars) % 256")
+# reversal of fix af6335e: bytes constants are their own key (BytesWarning in the -b twin)
+mut("bytes-own-key", ["C01"], "code_data/_constants.py",
+    "    if isinstance(value, (str, type(None), type(...))):\n        return value", "    if isinstance(value, (str, type(None), bytes, type(...))):\n        return value")
+# reversal of fix 04a4a89: absolute import in the command line module (vendored-copy twin)
+mut("cli-absolute-import", ["C16"], "code_data/_cli.py",
+    "from ._normalize import normalize", "from code_data._normalize import normalize")
 mut("relaxation-never-stops", ["C03"], "code_data/_blocks.py",
     "                    if n_instructions != _n_args(instruction, new_arg_value):\n                        changed_instruction_lengths = True",
     "                    if n_instructions != _n_args(instruction, new_arg_value) or (len(args) == 77 and len(blocks) == 5):\n                        changed_instruction_lengths = True")
